@@ -48,12 +48,13 @@ class KaniResult:
         self.failed = []             # [(description, location)]
         self.covers = {}             # description -> SATISFIED/UNSATISFIABLE/UNREACHABLE
         self.unwind_failed = False
+        self.labelled = {}           # property label -> number of reachable labelled assertions
         self.raw = ''
 
     def to_json(self):
         return {'harness': self.name, 'status': self.status, 'solver_time_s': self.time_s,
                 'checks': self.n_checks, 'failed_checks': [d for d, _ in self.failed],
-                'covers': self.covers}
+                'covers': self.covers, 'labelled_assertions': self.labelled}
 
 
 CHECK_RE = re.compile(r'^Check \d+: (\S.*?)\n\t - Status: (\w+)\n\t - Description: "(.*?)"\n(?:\t - Location: (.*?)\n)?', re.M | re.S)
@@ -64,8 +65,11 @@ def parse_result_file(path, res):
     res.raw = path
     n = 0
     for m in CHECK_RE.finditer(txt):
-        name, status, desc, loc = m.group(1), m.group(2), m.group(3), m.group(4) or ''
+        name, status, desc, loc = m.group(1), m.group(2), m.group(3).strip('"'), m.group(4) or ''
         n += 1
+        lm = re.match(r'^(C\d\d)[\[:]', desc)
+        if lm and status in ('SUCCESS', 'FAILURE'):
+            res.labelled[lm.group(1)] = res.labelled.get(lm.group(1), 0) + 1
         if '.cover.' in name or status in ('SATISFIED', 'UNSATISFIABLE'):
             res.covers[desc] = status
             continue
